@@ -294,3 +294,47 @@ macro_rules! v_compact {
         }
     }};
 }
+
+/// DataMap through a view: node_weight(id) is the weight of every node of the view (the encodings store the abstract
+/// index as node weight) and None for the ids in `$outside`; edge_weight(id) is the weight edge_references reports.
+#[macro_export]
+macro_rules! v_datamap {
+    ($ctx:expr, $abs:expr, $enc:expr, $outside:expr) => {{
+        use petgraph::data::DataMap;
+        use petgraph::visit::EdgeRef;
+        let enc = $enc;
+        let abs = $abs;
+        let g = &enc.g;
+        let outside = $outside;
+        let desc = || format!("{} view of {:?}", enc.name, abs);
+        let r = $crate::guard::guarded(|| -> Result<(), String> {
+            let mut seen = 0;
+            for r in petgraph::visit::IntoNodeReferences::node_references(g) {
+                use petgraph::visit::NodeRef;
+                seen += 1;
+                if DataMap::node_weight(&g, r.id()) != Some(r.weight()) {
+                    return Err(format!("node_weight(id) differs from the weight node_references reports for node {}", enc.abs(r.id())));
+                }
+            }
+            if seen != enc.ids.len() {
+                return Err(format!("node_references yields {} nodes, the view has {}", seen, enc.ids.len()));
+            }
+            for id in outside.iter() {
+                if DataMap::node_weight(&g, *id).is_some() {
+                    return Err(format!("node_weight is Some for an id that is not a node of the view"));
+                }
+            }
+            for r in petgraph::visit::IntoEdgeReferences::edge_references(g) {
+                if DataMap::edge_weight(&g, r.id()) != Some(r.weight()) {
+                    return Err(format!("edge_weight(id) differs from the weight edge_references reports for the edge {} -> {}", enc.abs(r.source()), enc.abs(r.target())));
+                }
+            }
+            Ok(())
+        });
+        match r {
+            Ok(Ok(())) => {}
+            Ok(Err(d)) => $ctx.viol("DataMap", "node_weight / edge_weight through the view differ from the view's nodes and edges", format!("{} ; {}", desc(), d)),
+            Err(p) => $ctx.viol("DataMap", &format!("panic: {}", $crate::guard::panic_class(&p)), format!("{} ; {}", desc(), p)),
+        }
+    }};
+}
